@@ -308,7 +308,9 @@ def func_cases(draw, tier):
             "A0": draw(gen.tt_specs(shape=[nn] * d, r_max=3, families=("gauss", "gauss", "smallint"), rank_families=("rank1", "uniform", "ragged"))),
             "y0_dtype": draw(st.sampled_from(["float64", "int64", "int32", "mixed"])),
             "lamb10": draw(st.sampled_from([-4, -3, -2, -1, 0, 1])), "nswp": draw(st.integers(1, 3)), "a": draw(st.integers(1, 2)),
-            "box": draw(st.sampled_from([[-1.0, 1.0], [0.0, 2.0], [-3.0, 0.5], [10.0, 11.0]]))}
+            "box": draw(st.sampled_from([[-1.0, 1.0], [0.0, 2.0], [-3.0, 0.5], [10.0, 11.0]])),
+            # n_max > n: the documented dynamic search may enlarge a mode by one coefficient per core update (thr_pow = 0: never shrinks)
+            "grow": draw(st.sampled_from([0, 0, 0, 1, 2, 3]))}
 
 
 def cheb_pred(A, X, a, b):
@@ -356,22 +358,28 @@ def prop_func(case, ctx):
     nswp = case["nswp"]
     ctx.label(f"d={d}", f"n={nn}", f"lamb=1e{case['lamb10']}")
     ctx.nontrivial(max(case["A0"]["r"]) >= 2)
+    grow = case.get("grow", 0)
+    kwg = dict(n_max=nn + grow) if grow else {}
+    ctx.label(f"n_max=n+{grow}")
     runs = []
     for t in range(1, nswp + 1):
         info = {}
-        A = ctx.lib(teneva.als_func, X, y, A0, a, b, t, None, info, lamb=lamb, thr_pow=0.)
-        why = oracle.wellformed(A, [nn] * d)
-        ctx.check(why is None, f"als_func: result not well-formed or shape changed: {why}")
+        A = ctx.lib(teneva.als_func, X, y, A0, a, b, t, None, info, lamb=lamb, thr_pow=0., **kwg)
+        why = oracle.wellformed(A, [nn] * d if not grow else None)
+        ctx.check(why is None and len(A) == d, f"als_func: result not well-formed or shape changed: {why}")
+        ctx.check(all(nn <= G.shape[1] <= nn + grow for G in A), "als_func: mode sizes outside [n, n_max]", shape=oracle.shape_of(A), n=nn, n_max=nn + grow)
         ctx.check(oracle.ranks_of(A) == oracle.ranks_of(A0), "als_func changed the TT-ranks")
         ctx.check(info["nswp"] == t and info["stop"] == "nswp", "als_func: info", info={k: info[k] for k in ("nswp", "stop")})
         runs.append(A)
+    if grow and nswp >= 1:
+        ctx.check(any(G.shape[1] > nn for G in runs[-1]), "als_func(n_max > n, thr_pow=0): no mode was enlarged", shape=oracle.shape_of(runs[-1]))
     seq = [Jf(A0, X, y, a, b, lamb)] + [Jf(A, X, y, a, b, lamb) for A in runs]
     for t in range(len(seq) - 1):
         ctx.check(seq[t + 1] <= seq[t] * (1 + 1e-9) + 1e-12 * (seq[0] + 1), "als_func: objective increased from one sweep to the next", sweep=t + 1, before=seq[t], after=seq[t + 1])
     A = runs[-1]
-    # gradient w.r.t. the last updated core (core 1)
+    # gradient w.r.t. the last updated core (core 1), over the coefficients that core holds
     T = [(2 * X[:, k] - a - b) / (b - a) for k in range(d)]
-    Hs = [np.polynomial.chebyshev.chebvander(T[k], nn - 1) for k in range(d)]
+    Hs = [np.polynomial.chebyshev.chebvander(T[k], A[k].shape[1] - 1) for k in range(d)]
     L = np.einsum('sj,jb->sb', Hs[0], A[0][0])
     Rv = np.ones((m, 1))
     for k in range(d - 1, 1, -1):
@@ -380,24 +388,32 @@ def prop_func(case, ctx):
     grad = np.einsum('s,sa,sj,sb->ajb', pred - y, L, Hs[1], Rv) + lamb * A[1]
     scale = float(np.einsum('sa,sj,sb->', np.abs(L), np.abs(Hs[1]), np.abs(Rv))) * (float(np.max(np.abs(pred))) + float(np.max(np.abs(y)))) + lamb * float(np.max(np.abs(A[1])))
     ctx.check(float(np.max(np.abs(grad))) <= 1e-8 * scale + 1e-200, "als_func: the core updated last is not at the minimiser (ridge gradient not zero)",
-              grad=float(np.max(np.abs(grad))), scale=scale)
+              grad=float(np.max(np.abs(grad))), scale=scale, shape=oracle.shape_of(A))
     kap = max(kappa_func(A, X, a, b, lamb), kappa_func(A0, X, a, b, lamb))
     tol = 1e-8 * kap                 # same conditioning-aware tolerance as for the index version
     stable = tol <= 1e-3
-    if not stable:
+    if grow:
+        # a start that is zero-padded to n_max (what the dynamic search does) sends the iteration through nearly singular interfaces:
+        # measured on the unmodified library the sample order then changes the result by a factor ~1e4 more per sweep (1e-11, 1e-7, 1e-3, ...),
+        # also without n_max when the caller pads the start himself.  kappa at the end points does not bound that, so the two
+        # metamorphic relations are not asserted in growth mode (descent and the exact minimiser are)
+        stable = False
+        ctx.label("growth_mode_metamorphic_not_asserted")
+    elif not stable:
         ctx.label("metamorphic_skipped_ill_conditioned")
     aa = min(case["a"], nswp)
     if nswp - aa >= 1 and stable:
-        Ab = ctx.lib(teneva.als_func, X, y, runs[aa - 1], a, b, nswp - aa, None, {}, lamb=lamb, thr_pow=0.)
-        ctx.check(rel_diff(Ab, A) <= tol, "als_func: a+b sweeps differ from a sweeps + restart + b sweeps", diff=rel_diff(Ab, A), tol=tol)
+        Ab = ctx.lib(teneva.als_func, X, y, runs[aa - 1], a, b, nswp - aa, None, {}, lamb=lamb, thr_pow=0., **kwg)
+        ctx.check(oracle.shape_of(Ab) == oracle.shape_of(A) and rel_diff(Ab, A) <= tol, "als_func: a+b sweeps differ from a sweeps + restart + b sweeps",
+                  diff=rel_diff(Ab, A) if oracle.shape_of(Ab) == oracle.shape_of(A) else None, tol=tol, shapes=[oracle.shape_of(Ab), oracle.shape_of(A)])
     perm = rng.permutation(m)
-    Ap = ctx.lib(teneva.als_func, X[perm], y[perm], A0, a, b, nswp, None, {}, lamb=lamb, thr_pow=0.)
-    ctx.check(not stable or rel_diff(Ap, A) <= tol, "als_func: result depends on the order of the samples", diff=rel_diff(Ap, A), tol=tol)
-    # default thr_pow: only shape <= initial and ranks are claimed
-    Ad = ctx.lib(teneva.als_func, X, y, A0, a, b, nswp, None, {}, lamb=lamb)
-    ctx.check(oracle.wellformed(Ad) is None and all(p_ <= nn for p_ in oracle.shape_of(Ad)) and oracle.ranks_of(Ad) == oracle.ranks_of(A0),
+    Ap = ctx.lib(teneva.als_func, X[perm], y[perm], A0, a, b, nswp, None, {}, lamb=lamb, thr_pow=0., **kwg)
+    ctx.check(oracle.shape_of(Ap) == oracle.shape_of(A) and (not stable or rel_diff(Ap, A) <= tol), "als_func: result (or its mode sizes) depends on the order of the samples",
+              diff=rel_diff(Ap, A) if oracle.shape_of(Ap) == oracle.shape_of(A) else None, tol=tol)
+    # default thr_pow: only shape <= initial (<= n_max) and ranks are claimed
+    Ad = ctx.lib(teneva.als_func, X, y, A0, a, b, nswp, None, {}, lamb=lamb, **kwg)
+    ctx.check(oracle.wellformed(Ad) is None and all(p_ <= nn + grow for p_ in oracle.shape_of(Ad)) and oracle.ranks_of(Ad) == oracle.ranks_of(A0),
               "als_func(default thr_pow): malformed result, grown mode or changed ranks", shape=oracle.shape_of(Ad))
-
 
 SUBCHECKS = [
     Sub("als", prop_als, strategy=als_cases, quick=150, thorough=2000),
